@@ -1605,7 +1605,7 @@ class PropertyGraphQueryException(PropertyGraphException):
     query exception for a property graph
     """
 
-    def __init__(self, *, graph_id: str or None, node_id: str or None, msg: str, node_b: str = None, kind: str = None):
+    def __init__(self, *, graph_id: str or None, node_id: str or None = None, msg: str, node_b: str = None, kind: str = None):
         """
         Query error for node or link
         :param graph_id:
